@@ -64,6 +64,7 @@ def tlc(spec, cfg, workers=4, timeout=1800, env=None, extra=(), xmx="4g", depth_
     if env:
         e.update(env)
     cmd = ["timeout", str(timeout), "java", "-XX:+UseParallelGC", f"-Xmx{xmx}",
+           f"-DTLA-Library={SPEC}",
            "-cp", "/opt/veriftools/tla/tla2tools.jar:/opt/veriftools/tla/CommunityModules-deps.jar",
            "tlc2.TLC", "-workers", str(workers), "-metadir", meta, "-cleanup",
            "-noGenerateSpecTE", "-config", cfg] + list(extra) + [spec]
